@@ -7,6 +7,7 @@ ScriptDef == CASE Scenario = "disable_enable" -> <<"disable", "enable">>
                [] Scenario = "reset_enable" -> <<"reset", "features", "enable">>
                [] Scenario = "disable_only" -> <<"disable">>
                [] Scenario = "stop_only" -> <<"stop">>
+               [] Scenario = "two_kicks" -> <<>>          \* no control message at all: kicks against the worker's own steps
                [] OTHER -> <<"enable", "disable", "enable">>
 \* print every complete schedule with the model's prediction
 Emit == Done => PrintT(<<"CASE", ToJson([script |-> Script, sched |-> sched, wfree |-> wfree, p1 |-> p1, lost |-> LostKick, died |-> died])>>)
